@@ -4,7 +4,7 @@ import json, os, re
 V = os.path.dirname(os.path.dirname(os.path.abspath(__file__)))
 res = {}
 for l in open(os.path.join(V, "seeded", "RESULTS.txt")):
-    m = re.match(r"(C\d+[a-d]): check=(C\d+) exit=(\d+) violations=(\d+) first=(.*)", l.strip())
+    m = re.match(r"(C\d+[a-e]): check=(C\d+) exit=(\d+) violations=(\d+) first=(.*)", l.strip())
     if m:
         res.setdefault(m.group(1), []).append({"check": m.group(2), "exit": int(m.group(3)), "violations": int(m.group(4)), "first_violation": m.group(5)})
 props = {json.loads(l)["id"]: json.loads(l)["title"] for l in open(os.path.join(V, "properties.jsonl"))}
